@@ -197,6 +197,20 @@ def do_call(desc):
             er7 = guarded(lambda: o.to_er7(ec) if ec else o.to_er7())
             return ['esc', type(o).__module__ + '.' + type(o).__qualname__, er7,
                     [list(x) for x in hl_in] if hl_in is not None else None]
+        if kind == 'retype':
+            # a local agreement: one named component of the official structure gets another complex datatype;
+            # a fresh component of the same name, built afterwards, must still be the official one
+            from hl7apy.core import Component
+            _, v, name, new_dt = desc
+            c = Component(name, version=v, validation_level=TOLERANT)
+            old = c.datatype
+            c.datatype = new_dt
+            first = sorted(c.structure_by_name)[0] if c.structure_by_name else None
+            if first:
+                setattr(c, first.lower(), 'x')
+            fresh = Component(name, version=v, validation_level=TOLERANT)
+            return ['retype', old, c.datatype, guarded(lambda: c.to_er7()), fresh.datatype,
+                    sorted(fresh.structure_by_name)[:3]]
         return ['exc', 'harness.UnknownCall', kind]
     except Exception as e:  # noqa
         return canon_exc(e)
@@ -291,6 +305,21 @@ def build_corpus(run):
             corpus.append(['escape', v, 'ST', 'ab|cd^ef!gh@i', [[5, 6], [0, 1]], ecname])
         corpus.append(['escape', v, 'FT', 'x~y\\z', None, 'default'])
         corpus.append(['escape', v, 'ST', 'abcdef', [[0, 3], [2, 4]], 'default'])
+    import hl7apy
+    for v in vs:
+        lib = hl7apy.load_library(v)
+        D = lib.DATATYPES
+        names = [k for k in sorted(D) if '_' in k and D[k][0] == 'sequence']
+        if not names:
+            continue
+        name = 'CX_4' if 'CX_4' in names else names[0]
+        structs = getattr(lib, 'DATATYPES_STRUCTS', {})
+        target = [t for t in ('CE', 'CWE', 'CNE') + tuple(sorted(structs)) if t in structs and t != D[name][2]][0]
+        corpus.append(['retype', v, name, target])
+        # ... and calls that build that component from text afterwards
+        if name == 'CX_4':
+            corpus.append(['segment', 'PID|1||12345^^^HOSP&1.2.3&ISO^MR', v, TOLERANT])
+            corpus.append(['segment', 'PID|1||12345^^^HOSP&1.2.3&ISO^MR', v, STRICT])
     return corpus
 
 
@@ -1030,6 +1059,10 @@ def sequential_pass(run, corpus, alone, deep_every=40):
                      call=d, object=obj, how='touch point')
         if alone.get(key_of(d)) is not None and r != alone[key_of(d)]:
             stats['seq_differs_from_alone'].append(short(d))
+        if d[0] == 'retype' and r and r[0] == 'retype' and r[1] != r[4]:
+            run.fail('shared-state-mutated', 'changing the datatype of one component changed what a fresh component of that '
+                     'name is (the library structure is shared, not copied)', call=d, object='%s datatype' % d[2],
+                     now='%s (was %s)' % (r[4], r[1]), how='fresh element after the call')
         before = after
         since_deep.append(d)
         if len(since_deep) >= deep_every or idx == len(corpus) - 1:
